@@ -5,6 +5,6 @@ package smobserver
 
 //@ // C14: malformed events are logged and skipped; every event handed on was decoded without error
 //@ func makeEvents
-//@   ensures len(ret0) <= len(events) && (forall i :: 0 <= i && i < len(ret0) ==> ret0[i] != nil)
+//@   ensures len(ret0) <= len(events) && (forall i :: 0 <= i && i < len(ret0) ==> (ret0[i] != nil && payload(ret0[i]) != 0))
 //@   invariant len(res) <= rangeindex + 1
-//@   invariant forall i :: 0 <= i && i < len(res) ==> res[i] != nil
+//@   invariant forall i :: 0 <= i && i < len(res) ==> (res[i] != nil && payload(res[i]) != 0)
